@@ -415,7 +415,29 @@ def replay(sh, payload):
         print("reference:", ref)
         print("observed: ", got)
         return "violated" if got != ref else "held"
-    # process / thread modes: repeat in fresh processes
+    lists = (r.get("extra") or {}).get("lists")
+    if str(r.get("mode", "")).startswith("threads") and lists:
+        # re-run the recorded concurrent schedule request repeatedly (the OS picks the interleaving: a race is a
+        # probabilistic observation, so "held" here means "did not recur in 40 runs")
+        want = json.dumps(x, sort_keys=True)
+        diffs = 0
+        for i in range(40):
+            rs = w.threads(lists)
+            if isinstance(rs, dict):
+                return "inconclusive"
+            for l, rl in zip(lists, rs):
+                if isinstance(rl, dict):
+                    continue
+                for y, res in zip(l, rl):
+                    if json.dumps(y, sort_keys=True) == want and key(res) != ref:
+                        diffs += 1
+                        if diffs <= 2:
+                            print("reference:", ref)
+                            print("observed: ", key(res))
+            if diffs:
+                break
+        return "violated" if diffs else "held"
+    # process mode: repeat in fresh processes
     diffs = 0
     for i in range(8):
         w2 = worker.Worker(sh.bins["R"])
